@@ -37,6 +37,9 @@ type Case struct {
 	// applied and the handler under test was made: "wrap" (a handler is made and
 	// thrown away), "strict:true|false", "array:true|false".  The last setting wins.
 	History []string `json:"history,omitempty"`
+	// Later: after the handler under test has been made, the settings of the
+	// FuncInfo are flipped and another handler is made; the first one keeps its own.
+	Later bool `json:"later,omitempty"`
 }
 
 type ctxKey struct{}
@@ -324,7 +327,11 @@ func run(_ *testing.T, c Case) (v engine.Verdict) {
 	var herr error
 	if p := func() (p any) {
 		defer func() { p = recover() }()
-		res, herr = fi.Wrap()(ctx, req)
+		h := fi.Wrap()
+		if c.Later {
+			_ = fi.SetStrict(!strict).AllowArray(!allowArray).Wrap()
+		}
+		res, herr = h(ctx, req)
 		return nil
 	}(); p != nil {
 		return engine.Failf("C15/wrapper-panics", "the wrapped handler panicked: %v (%s)", p, desc)
@@ -565,6 +572,7 @@ func genCase(t *rapid.T) Case {
 	}
 	c.Strict = rapid.SampledFrom([]string{"", "", "true", "false"}).Draw(t, "strict")
 	c.Array = rapid.SampledFrom([]string{"", "", "true", "false"}).Draw(t, "array")
+	c.Later = rapid.IntRange(0, 5).Draw(t, "later") == 0
 	if rapid.IntRange(0, 3).Draw(t, "hist") == 0 {
 		for i, n := 0, rapid.IntRange(1, 4).Draw(t, "nhist"); i < n; i++ {
 			c.History = append(c.History, rapid.SampledFrom([]string{"wrap", "wrap", "strict:true", "strict:false", "array:true", "array:false"}).Draw(t, "hop"))
